@@ -289,7 +289,12 @@ def run_check(prop_id, tier, seed, replay=None, workers=None, keep=False):
     # may legitimately stop using a helper and leave it in place; what makes a run conclusive is that the deciding monitors
     # observed events (REQUIRED / CONCLUSIVE).  Only when none of the anchored patterns ran at all is the workload
     # evidently not exercising the code the property is anchored in.
-    if present and len(missing) == len(present) and not replay:
+    # (A refactoring may even leave NO anchored pattern executed - the one helper it stopped calling still in place, the other
+    # lines rewritten: seen with an independent refactoring of SWAP.apply.  So the files the patterns live in must not
+    # have run at all for the workload to count as "not exercising the anchored code".)
+    reach_files = {rel for rel, _, _ in getattr(mod, "REACH", [])}
+    files_ran = any(executed.get(rel) for rel in reach_files)
+    if present and len(missing) == len(present) and not files_ran and not replay:
         inconclusive.append("unreached:" + ",".join(missing))
     if hasattr(mod, "CONCLUSIVE") and not replay:
         inconclusive.extend(mod.CONCLUSIVE(counters))
